@@ -46,6 +46,10 @@ TIE_VIEWS = TIE("GzViews", "tie_obtain_vertices", "tie_accessor_to_latter_map", 
 TIE_BUILD = TIE("SwFind", "tie_find_vertices") + TIE("SwValid", "tie_connect_valid_graph", "tie_connect_valid_graph_none")
 GRAPHCOR = {c: TIE("GraphCorollaries", *[n for n in ("gen_C11_mask", "gen_C11_mask_iff", "gen_C11_valid_graph", "gen_C03_holds", "gen_C03_error_iff", "gen_C03_mono", "gen_C03_remove_useless", "gen_C03_latter_map", "gen_C04_terminates_normal", "gen_C04_terminates_fast", "gen_C04_tight_normal", "gen_C04_length_branching", "gen_C04_length_complete", "gen_C04_tight_fast", "gen_C02_generated_subgraph", "gen_E2E_generated_subgraph", "gen_C02_windows", "gen_C02_whole", "gen_E2E_write", "gen_C13_latters", "gen_C13_formers", "gen_C13_lt", "gen_C13_former_iff_latter", "gen_C13_complete", "gen_C13_wfdb_valid_graph", "gen_C13_wfdb_coding_graph", "gen_C13_wfdb_latter_map", "gen_C14_latter_map_roundtrip", "gen_C14_latter_map_content", "gen_C14_vertices", "gen_C14_leaves", "gen_C14_leaves'", "gen_C19_scores",) if n.startswith("gen_" + c) or (c == "C02" and n.startswith("gen_E2E"))])
             for c in ("C02", "C03", "C04", "C11", "C13", "C14", "C19")}
+TIE_BF = TIE("BfValid", "tie_LocalBioFilter_init", "tie_LocalBioFilter_valid", "tie_LocalBioFilter", "tie_DefaultBioFilter_valid")
+BFCOR = {"C12": TIE("BfCorollaries", "gen_C12_total", "gen_C12_valid_all", "gen_C12_last", "gen_C12_window_conj", "gen_C12_foreign",
+                    "gen_C12_revcomp", "gen_C12_accepted"),
+         "C02": TIE("BfCorollaries", "gen_C02_ctor_partial", "gen_C12_accepted")}
 TIE_CCG = TIE("SwCoding", "tie_connect_coding_graph")
 TIE_SCORE = TIE("GzScore", "tie_calculate_intersection_score")
 TIE_REP = TIE("SwRepair", "tie_repair_dna") + TIE("GzPath", "tie_path_matching")
@@ -64,7 +68,7 @@ PROPS = {
                      "out-degrees) x start x permutation table x message x mode x check length; a case is one encode "
                      "line; non-trivial = message value > 0 and the walk visits a branching vertex; distinct = hash "
                      "of the operation line"),
-    "C02": dict(level="proof", theorems=T("C02", "C02_windows", "C02_generated_subgraph", "C02_whole", "C02_ctor_partial", "C02_ctor_counterexample") + T("EndToEnd", "E2E_generated_subgraph") + TIE_BUILD + TIE_CCG + TIE_SW[1:2] + GRAPHCOR["C02"], tie=[("spiderweb", ["find_vertices", "connect_valid_graph", "connect_coding_graph", "encode"])], gens=["C02", "GENSW"],
+    "C02": dict(level="proof", theorems=T("C02", "C02_windows", "C02_generated_subgraph", "C02_whole", "C02_ctor_partial", "C02_ctor_counterexample") + T("EndToEnd", "E2E_generated_subgraph") + TIE_BUILD + TIE_CCG + TIE_SW[1:2] + GRAPHCOR["C02"] + TIE_BF[:3] + BFCOR["C02"], tie=[("spiderweb", ["find_vertices", "connect_valid_graph", "connect_coding_graph", "encode"]), "biofilter"], gens=["C02", "GENSW", "GENBF"],
                 rule="filter grid (run x GC range x motifs, and user-defined table predicates) x k x threshold x start x "
                      "message x table x mode, plus the constructor grid and the threshold grid; non-trivial = a "
                      "non-empty strand was emitted / configuration accepted"),
@@ -98,11 +102,14 @@ PROPS = {
                 rule="filters (documented-interface table filter, keyword-extended filter, LocalBioFilter, empty) x "
                      "k, and masks x dtype for the valid graph; non-trivial = mask neither empty nor full"),
     "C12": dict(level="proof", theorems=T("C12", "C12_valid_all", "C12_last", "C12_window_conj", "C12_revcomp",
-                                          "C12_foreign", "C12_isInfix", "C12_accepted") + T("C12b", "C12_thresholds", "C12_exact_consistent"), gens=["C12"],
+                                          "C12_foreign", "C12_isInfix", "C12_accepted") + T("C12b", "C12_thresholds", "C12_exact_consistent") + TIE_BF + BFCOR["C12"],
+                tie="biofilter", gens=["C12", "GENBF"],
                 rule="(configuration, string) pairs incl. biased strands, foreign characters, k up to 25; "
                      "non-trivial = toggling one rule flips the verdict",
-                trusted=["the float products lo*k, hi*k, k-lo*k are turned into integer thresholds by the harness with "
-                         "the same expressions as the code; IEEE-754 multiplication itself is not modelled"]),
+                trusted=["the double-precision products lo*k, hi*k, k-lo*k are modelled exactly (Model/Float.lean: exact rational "
+                         "result, round to nearest even, gradual underflow) and the model derives the integer thresholds itself "
+                         "(floatGcRule); that rounding model is validated against CPython on every run (driver operation `fop`), "
+                         "not proved against IEEE-754"]),
     "C13": dict(level="proof", theorems=T("C13", "C13_idx_of_kmer", "C13_kmer_of_idx", "C13_latters", "C13_formers",
                                           "C13_latters_lt", "C13_formers_lt", "C13_former_iff_latter", "C13_complete",
                                           "C13_wfdb_induced", "C13_wfdb_valid_graph", "C13_wfdb_setEnt",
